@@ -29,6 +29,9 @@ type DataSeg struct {
 	Addr uint64
 	Data []byte
 	Bss  int
+	// Empty: a loadable segment of no bytes at all (neither file bytes nor
+	// zero fill) is emitted for it
+	Empty bool
 }
 
 // ExecSegs is Exec with any number of data segments (the caller keeps them
@@ -66,6 +69,10 @@ func ExecSegs(prog []rvref.ProgIns, entry uint64, segs []DataSeg) *elfref.Desc {
 	flush()
 	for i, sg := range segs {
 		data, bss, dataAddr := sg.Data, sg.Bss, sg.Addr
+		if sg.Empty {
+			d.Progs = append(d.Progs, elfref.Prog{Type: elfref.PTLoad, Flags: 6, Off: off, Vaddr: dataAddr, Filesz: 0, Memsz: 0})
+			continue
+		}
 		if len(data) == 0 && bss <= 0 {
 			continue
 		}
